@@ -45,9 +45,15 @@ def frontend():
     goext("frontend", "Frontend.lean")
 
 
+<<<<<<< HEAD
 def c11():
     """C11: schema, copy table, structural/semantic branch tables, indexed-write/append facts (goext mode c11)."""
     goext("c11", "C11.lean")
+=======
+def visitors():
+    """listener protocol table (push/pop actions with guards per visitor type and rule), C08/C07"""
+    goext("visitors", "Visitors.lean")
+>>>>>>> build-c07
 
 
 def witness(script, outname, build_first):
